@@ -146,7 +146,7 @@ def explore(run):
             feats = {}
             if rng.random() < 0.12:
                 feats = {"browse_colon": True, "attr_overflow": True}
-            feats = dict(feats, repeat_nodes=rng.random() < 0.2, many_ns=rng.random() < 0.08)
+            feats = dict(feats, repeat_nodes=rng.random() < 0.2, many_ns=rng.random() < 0.08, vt_values=rng.random() < 0.5)   # variable types carry default Values too
             g = D.gen_graph(rng, hostile=hostile, closed=False, features=feats, n_nodes=2 if feats["many_ns"] else None)
             for n_ in g["nodes"].values():        # null Booleans belong to C08 (finding D-C08e)
                 v = n_["value"]
